@@ -41,6 +41,8 @@ def _setup():
     J._continue = lambda job: _LOG.append(("continue", job["pids"][0]))
     J._send_signal = lambda job, sig: None
     J.give_terminal_to = lambda pgid: False
+    if hasattr(J, "_jobs_lock"):
+        J._jobs_lock = pysched.CoRLock()  # a real lock held across a scheduling point would hang the baton
 
 
 def _traced():
@@ -48,6 +50,8 @@ def _traced():
     fs = [J.get_next_task, J._clear_dead_jobs, J.get_next_job_number, J.add_job, J.update_job_attr, J.resume_job, J.get_task, J.format_job_string]
     fs += [J.jobs.__wrapped__ if hasattr(J.jobs, "__wrapped__") else J.jobs, J.bg.__wrapped__ if hasattr(J.bg, "__wrapped__") else J.bg, J.disown_fn.__wrapped__ if hasattr(J.disown_fn, "__wrapped__") else J.disown_fn]
     fs.append(J.use_main_jobs)
+    if hasattr(J, "_select_job_to_resume"):
+        fs.append(J._select_job_to_resume)
     return pysched.codes_of(*fs)
 
 
@@ -69,7 +73,7 @@ def _fresh_table():
 def _do(op, procs, errs):
     J = _J
     try:
-        with contextlib.redirect_stdout(io.StringIO()), contextlib.redirect_stderr(io.StringIO()):
+        if True:  # (no redirect_stdout here: it swaps the process-wide sys.stdout and is not thread-safe)
             if op[0] == "add":
                 pid = 200 + len(procs)
                 p = StubProc(pid)
@@ -109,11 +113,18 @@ def _body(s):
         for op in alias_ops:
             _do(op, procs, errs_a)
 
+    import sys
+
     t = threading.Thread(target=alias_thread, name="alias")
-    t.start()
-    for op in main_ops:
-        _do(op, procs, errs_m)
-    t.join()
+    old_out, old_err = sys.stdout, sys.stderr
+    sys.stdout = sys.stderr = io.StringIO()
+    try:
+        t.start()
+        for op in main_ops:
+            _do(op, procs, errs_m)
+        t.join()
+    finally:
+        sys.stdout, sys.stderr = old_out, old_err
     return {"errs": errs_m + errs_a, "final": _final()}
 
 
